@@ -163,7 +163,9 @@ fn enc_float(f: f64, out: &mut Vec<u8>) {
         const I128_MIN_F: f64 = i128::MIN as f64;
         if (I128_MIN_F..=I128_MAX_F).contains(&f) {
             let i = f as i128;
-            if i as f64 == f {
+            // Only integers of the canonical range take the integer form; write_major
+            // cannot represent arguments above u64::MAX.
+            if i as f64 == f && int_in_range(i) {
                 enc_int(i, out);
                 return;
             }
@@ -417,7 +419,7 @@ fn is_exact_int(f: f64) -> bool {
         return false;
     }
     let i = f as i128;
-    i as f64 == f
+    i as f64 == f && int_in_range(i)
 }
 
 fn can_fit_f16(f: f64) -> bool {
